@@ -30,11 +30,12 @@ def c01(cx):
 @prop("C04", 'LEA rules R-NEWLINE (every consumed character that may be a line feed is followed by add_line() '
              'before further consumption / token start / end of the step), R-ADVANCE-EVIDENCE (advance_by counts '
              "are dominated by look-ahead evidence on every path), R-PRECONSUME (a dispatcher's pre-consumed first "
-             'character is one the scanner loop would consume with the same effects, add_line included); '
+             'character is one the scanner loop would consume with the same effects, add_line included), '
+             'R-UNCONSUME (a cursor put back to a saved copy takes back the line starts recorded since); '
              'structural R-RESTORE (rollback truncates the line table). Decides the line-table half; column '
              'arithmetic via C05.')
 def c04(cx):
-    lea_glue.apply(cx, ["R-NEWLINE", "R-ADVANCE-EVIDENCE", "R-PRECONSUME", "R-OFFSET-PROVENANCE"])
+    lea_glue.apply(cx, ["R-NEWLINE", "R-ADVANCE-EVIDENCE", "R-PRECONSUME", "R-OFFSET-PROVENANCE", "R-UNCONSUME"])
     rules_struct.r_restore(cx, cx.facts("dev-none-stable"))
     rules_bulk.run(cx)
 
@@ -45,10 +46,13 @@ def c04(cx):
              "consumed since the token start and by the next token's start), R-SPELL (symbol tokens consume "
              'exactly one admissible spelling), R-DELIM-SHAPE (comments carry opener and closer), R-MARK-WS '
              '(hidden WS emitted at a mark covers only whitespace), R-ORPHAN (every consumed character belongs to '
-             'a token of its step), R-ADVANCE-EVIDENCE. Decides these per-type shape clauses, not the keyword '
-             "tables' content.")
+             'a token of its step), R-ADVANCE-EVIDENCE, R-KEYWORD-FLOW (a token typed by a keyword-table entry spans '
+             'exactly the looked-up text: the key is the whole scanned identifier, the token ends where it ends, '
+             'and the length shortcut never skips a key length). Decides these per-type shape clauses, not the '
+             "keyword tables' content.")
 def c06(cx):
-    lea_glue.apply(cx, ["R-CHANNEL", "R-ADVANCE-EVIDENCE", "R-MARK-WS", "R-DELIM-SHAPE", "R-NONEMPTY", "R-SPELL", "R-ORPHAN"])
+    lea_glue.apply(cx, ["R-CHANNEL", "R-ADVANCE-EVIDENCE", "R-MARK-WS", "R-DELIM-SHAPE", "R-NONEMPTY", "R-SPELL", "R-ORPHAN",
+                        "R-KEYWORD-FLOW"])
 
 
 @prop("C09", 'LEA: R-CKPT (checkpoint typestate on every path and through every live-checkpoint region: no '
@@ -66,32 +70,43 @@ def c09(cx):
              "follows the consumption of the closing quote), R-PRECONSUME (a dispatcher's pre-consumed first "
              'character is not one the scanner would treat as an escape / section boundary) and R-PAYLOAD-ESCAPE '
              '(literal-buffer positions as ordered labels: a token emitted after a literal-section cut does not '
-             'take the no-payload branch); structural R-HEX-SINK and R-RESTORE. Decides where sections begin and '
-             'end and that unquoting is reported, not the unquoted content.')
+             'take the no-payload branch); structural R-HEX-SINK, R-RESTORE and R-UNITS-PAYLOAD (R-UNITS restricted to the functions '
+             'that build string payloads (the text handed to the hex decoder / the literal buffer is sliced by byte '
+             'offsets, never by code-point offsets)). Decides where sections begin and end and that unquoting is '
+             'reported, not the unquoted content.')
 def c07(cx):
     lea_glue.apply(cx, ["R-SECTION", "R-PRECONSUME", "R-PAYLOAD-ESCAPE"])
     fx = cx.facts("dev-none-stable")
     rules_struct.r_hex_sink(cx, fx)
     rules_struct.r_restore(cx, fx)
+    rules_struct.r_units(cx, ["dev-none-stable"], only_fns=rules_struct.payload_fns, rule_name="R-UNITS-PAYLOAD")
 
 
 @prop("C10", 'LEA rules R-RETYPE-GUARD (a token is retyped through the same look-behind accessor that guarded it), '
              'R-EXPECT-TABLE clauses LPAREN-FIRST / PARENS-BALANCED for every argument-taking built-in keyword, '
              'R-FINALIZE-ONCE (finalize_lexing closes every pending mode exactly once, re-pushing what a delegate '
              'pops), R-GROUP (datalines start, data and terminator are emitted together on every accepting path; a '
-             'MacroLabel retype is followed by its one-character hidden colon).')
+             'MacroLabel retype is followed by its one-character hidden colon), R-POP-OWN (a step pops a mode below '
+             'its own only after identifying it, so an enclosing StringExpr / ExpectSymbol is never dropped without '
+             'its closing token).')
 def c10(cx):
-    lea_glue.apply(cx, ["R-RETYPE-GUARD", "R-EXPECT-TABLE", "R-FINALIZE-ONCE", "R-GROUP"])
+    lea_glue.apply(cx, ["R-RETYPE-GUARD", "R-EXPECT-TABLE", "R-FINALIZE-ONCE", "R-GROUP", "R-POP-OWN"])
+
+
+C13_NOT_DELIM_MODES = ("ExpectSemiOrEOF", "MacroDo", "MacroLocalGlobal", "MacroNameExpr", "MacroDefName")
 
 
 @prop("C13", 'LEA rules R-NESTING-FLUSH (every exit of a parenthesis-counting argument scanner pops the mode, '
              'stores the local count into it, or provably has count 0), R-DEPTH-GUARD (an argument / expression '
              "mode is closed by ',' or ')' only under a depth-zero test) and R-PRECONSUME (dispatcher and scanner "
              'agree on %-quoted characters: what a dispatcher consumes before handing over is what the scanner '
-             'would consume without touching its nesting count). Decides the masking mechanics, not operator '
-             'classification.')
+             'would consume without touching its nesting count), and R-WS-ORDER for the modes that decide call / '
+             "definition delimiters (a mode that gives up on a blank is entered behind the whitespace skipper, so a "
+             'blank or comment in front of a comma, parenthesis or = does not turn it into text). Decides the '
+             'masking mechanics, not operator classification.')
 def c13(cx):
-    lea_glue.apply(cx, ["R-NESTING-FLUSH", "R-DEPTH-GUARD", "R-PRECONSUME"])
+    lea_glue.apply(cx, ["R-NESTING-FLUSH", "R-DEPTH-GUARD", "R-PRECONSUME", "R-WS-ORDER"],
+                   only={"R-WS-ORDER": lambda k: not k.startswith(C13_NOT_DELIM_MODES)})
 
 
 @prop("C14", 'LEA rules R-EXPECT-TABLE (for every keyword handled by dispatch_macro_call_or_stat, and for the '
@@ -99,9 +114,12 @@ def c13(cx):
              "first, ',' after the first %scan/%substr argument, '=' after the %let / %do name, '/' after the "
              "%copy name, ';' last), R-ERR-PAIR (each 'missing expected' error sits at the recovery token's "
              'offset, incl. finalize_lexing), R-FINALIZE-ONCE (every pending mode is closed exactly once at end of '
-             'input) and R-EXPECT-SURVIVES (no rollback truncation discards a pending expectation mode).')
+             'input), R-EXPECT-SURVIVES (no rollback truncation discards a pending expectation mode) and R-WS-ORDER for '
+             'the two expectation modes (they are entered behind the whitespace skipper, so the diagnostic and the '
+             'recovery token sit after insignificant blanks, where the delimiter was expected).')
 def c14(cx):
-    lea_glue.apply(cx, ["R-EXPECT-TABLE", "R-ERR-PAIR", "R-EXPECT-SURVIVES", "R-FINALIZE-ONCE"])
+    lea_glue.apply(cx, ["R-EXPECT-TABLE", "R-ERR-PAIR", "R-EXPECT-SURVIVES", "R-FINALIZE-ONCE", "R-WS-ORDER"],
+                   only={"R-WS-ORDER": lambda k: k.startswith(("ExpectSymbol<-", "ExpectSemiOrEOF<-"))})
 
 
 @prop("C03", 'structural rules R-CURSOR-COUNT (every chars.next() of Cursor::advance/advance_by is matched by +1 '
@@ -109,8 +127,10 @@ def c14(cx):
              '(a byte/code-point dimension analysis: ByteOffset::new, CharOffset::new, str slicing bounds, '
              'comparisons, and plain-integer parameters / fields whose name declares the unit never mix the two), '
              'R-BOM-USERS (only Lexer::new looks at the byte-order mark) and LEA R-BOM-ORDER on the paths of '
-             'Lexer::new (the first char offset counts exactly the skipped mark).')
+             'Lexer::new (the first char offset counts exactly the skipped mark); R-BULK-OFFSETS (R-BULK-AGREE for the start / '
+             'stop fields: the resolved view Python consumes reports the same character offsets as the accessors).')
 def c03(cx):
+    rules_bulk.run(cx, fields=("start", "stop"), rule_name="R-BULK-OFFSETS")
     rules_struct.r_cursor_count(cx, ["dev-none-stable", "rel-none-stable"])
     rules_struct.r_units(cx, ["dev-none-stable", "dev-msep-stable"])
     rules_struct.r_bom_const(cx, cx.facts("dev-none-stable"))
@@ -121,15 +141,16 @@ def c03(cx):
              'the literal buffer to exactly what checkpoint captured, on every path), R-EOF (EOF only from '
              'finalize_lexing / into_detached, lex() always ends through them), R-BOM-ORDER, R-INSERT-PROVENANCE, '
              'R-CFGDIFF-MACROSEP; LEA rules R-OFFSET-PROVENANCE (byte offset, char offset and line of every '
-             'emitted token are snapshots of one and the same cursor position) and R-EMIT-ORDER (token starts are '
-             'non-decreasing along a step).')
+             'emitted token are snapshots of one and the same cursor position), R-EMIT-ORDER (token starts are '
+             'non-decreasing along a step) and R-UNCONSUME (putting the cursor back to a saved copy takes back the '
+             'line starts and tokens recorded for the un-consumed text).')
 def c02(cx):
     fx = cx.facts("dev-none-stable")
     rules_struct.r_restore(cx, fx)
     rules_struct.r_eof(cx, fx)
     rules_cfg.r_cfgdiff_macrosep(cx)
     rules_struct.r_comutate(cx, ["dev-none-stable", "dev-msep-stable"])
-    lea_glue.apply(cx, ["R-OFFSET-PROVENANCE", "R-EMIT-ORDER", "R-BOM-ORDER"])
+    lea_glue.apply(cx, ["R-OFFSET-PROVENANCE", "R-EMIT-ORDER", "R-BOM-ORDER", "R-UNCONSUME"])
 
 
 @prop("C12", 'R-FRAME-BALANCE (on every lex_token path pending-statement frames and the macro nesting level change only '
@@ -138,9 +159,12 @@ def c02(cx):
              'resolve their checkpoint), R-PENDING, R-EXPECT-TABLE, and R-WS-ORDER: every mode that gives up at '
              'zero consumption on a possibly-blank character is entered behind the whitespace/comment skipper or a '
              'mode that leaves a non-blank (mode push order; audited table of modes for which a blank is a '
-             'terminator). Decides these mode-choreography clauses, not the absence of errors for all programs.')
+             'terminator), R-POP-OWN (no step pops a mode it has not identified) and R-DEPTH-GUARD (an argument value '
+             'ends at a comma or parenthesis only at nesting level zero). Decides these mode-choreography clauses, '
+             'not the absence of errors for all programs.')
 def c12(cx):
-    lea_glue.apply(cx, ["R-CKPT", "R-PENDING", "R-WS-ORDER", "R-EXPECT-TABLE", "R-FRAME-BALANCE", "R-9XXX", "R-PRECONSUME"])
+    lea_glue.apply(cx, ["R-CKPT", "R-PENDING", "R-WS-ORDER", "R-EXPECT-TABLE", "R-FRAME-BALANCE", "R-9XXX", "R-PRECONSUME",
+                        "R-POP-OWN", "R-DEPTH-GUARD"])
 
 
 @prop("C17", 'R-BOM-ORDER (the BOM constant is only looked at in Lexer::new, where it is eaten once before the '
@@ -172,23 +196,28 @@ def c05(cx):
 @prop("C11", 'LEA rules on macro-free open-code paths: R-PENDING (the pending-statement flag follows the last '
              "DEFAULT token: false after ';', true otherwise), R-DATALINES-START (datalines is recognised exactly "
              "when the previous DEFAULT-channel token is absent or ';'), R-DELIM-SHAPE (comments consume disjoint "
-             'opener and closer), R-SPELL, R-NONEMPTY. Decides the statement-context flag and token-shape clauses, '
+             'opener and closer), R-SPELL, R-NONEMPTY, R-KEYWORD-FLOW (every keyword of the table is looked up for '
+             'the whole identifier), R-STOP-SET (the text scanner of a double-quoted literal ends its token only in '
+             'front of the closing quote, end of input or a macro trigger as the property defines it). Decides the '
+             'statement-context flag and token-shape clauses, '
              'not equivalence with a reference lexer.')
 def c11(cx):
-    lea_glue.apply(cx, ["R-PENDING", "R-DELIM-SHAPE", "R-NONEMPTY", "R-SPELL", "R-DATALINES-START", "R-ADVANCE-EVIDENCE"])
+    lea_glue.apply(cx, ["R-PENDING", "R-DELIM-SHAPE", "R-NONEMPTY", "R-SPELL", "R-DATALINES-START", "R-ADVANCE-EVIDENCE",
+                        "R-KEYWORD-FLOW", "R-STOP-SET"])
 
 
 @prop("C15", 'R-STATE-INVENTORY (no state outside the lexer object), R-NO-ABSOLUTE (no control flow on history '
              'lengths or absolute offsets), R-LOOKBEHIND + R-DATALINES-START (statement-start look-behind treats '
              "'no previous token' like ';' and ignores hidden tokens), R-CKPT (no checkpoint survives a closed "
              'boundary), R-FRAME-BALANCE and R-PENDING (pending-statement frames and the open-code flag are back '
-             'to their initial value after a closed statement). Decides that no channel other than the declared '
+             'to their initial value after a closed statement), R-POP-OWN (a step never pops modes of an enclosing '
+             'construct it has not identified). Decides that no channel other than the declared '
              'configuration carries information across a closed boundary; not equality of results for all (A, B).')
 def c15(cx):
     rules_cfg.r_state_inventory(cx)
     rules_cfg.r_no_absolute(cx)
     rules_cfg.r_lookbehind(cx)
-    lea_glue.apply(cx, ["R-CKPT", "R-DATALINES-START", "R-FRAME-BALANCE", "R-PENDING"])
+    lea_glue.apply(cx, ["R-CKPT", "R-DATALINES-START", "R-FRAME-BALANCE", "R-PENDING", "R-POP-OWN"])
 
 
 @prop("C18", 'R-CFGDIFF-MACROSEP: structural diff of the feature-off and feature-on HIR: feature-only code may '
